@@ -68,8 +68,9 @@ class _Recast(ast.NodeTransformer):
         # keyword normalisation; abbreviation introduces new names afterwards)
         if call_name(node) in ('np.array', 'numpy.array') and not node.args and len(node.keywords) == 1 and \
                 node.keywords[0].arg == 'object' and isinstance(node.keywords[0].value, ast.Name):
-            return ast.copy_location(ast.Call(func=ast.Attribute(value=node.keywords[0].value, attr='copy', ctx=ast.Load()),
-                                              args=[], keywords=[]), node)
+            new = ast.Call(func=ast.Attribute(value=node.keywords[0].value, attr='copy', ctx=ast.Load()), args=[], keywords=[])
+            new._from_np_array = True            # (same tag as match._Canon: np.array(x) also converts np.matrix / list)
+            return ast.copy_location(new, node)
         return node
 
 
@@ -203,12 +204,23 @@ def _expr(text):
     return e
 
 
+def _expr_key(node):
+    """Key of a non-comparison condition.  issparse(x) and isspmatrix(x) are ONE
+    predicate here: they agree on every container the MSM properties quantify
+    over (ndarray and the scipy sparse matrix classes), so a function testing
+    both does not get paths on which they disagree."""
+    if isinstance(node, ast.Call) and (call_name(node) or '').split('.')[-1] in ('issparse', 'isspmatrix') and \
+            len(node.args) == 1 and not node.keywords:
+        return ('expr', 'issparse(%s)' % u(node.args[0]))
+    return ('expr', u(node))
+
+
 def cond_atoms(test, polarity):
     """[(key, polarity, atom)] of a (normalised) branch condition: `atom` is
     an expression that evaluates to `polarity` on the path."""
     cj = conjuncts(test, polarity)
     if cj is None:
-        return [(('expr', u(test)), polarity, test)]
+        return [(_expr_key(test), polarity, test)]
     out = []
     for c in cj:
         if isinstance(c, Cmp):
@@ -224,7 +236,7 @@ def cond_atoms(test, polarity):
                 node = test
             out.append((k, p, node))
         else:
-            out.append((('expr', u(c[1])), c[2], c[1]))
+            out.append((_expr_key(c[1]), c[2], c[1]))
     return out
 
 
@@ -279,13 +291,16 @@ class _State:
     b.T`, `a = b[i]`); stale: locals whose symbolic value is out of date
     because an alias was updated in place (reading one is not modelled)."""
 
-    def __init__(self, env, conds, alias=None, stale=None):
+    def __init__(self, env, conds, alias=None, stale=None, views=None):
         self.env, self.conds = env, conds
         self.alias = alias if alias is not None else {}
         self.stale = stale if stale is not None else set()
+        # local -> (root local, symbolic index): `v = root[<basic slicing>]`, an
+        # ndarray VIEW of the object `root` is bound to (see SymExec._view_update)
+        self.views = views if views is not None else {}
 
     def fork(self):
-        return _State(dict(self.env), dict(self.conds), dict(self.alias), set(self.stale))
+        return _State(dict(self.env), dict(self.conds), dict(self.alias), set(self.stale), dict(self.views))
 
     def group(self, name):
         return self.alias.get(name, frozenset([name]))
@@ -293,6 +308,8 @@ class _State:
     def rebind(self, name, root=None):
         if root == name:
             return                      # x = x.T / x = x[i] / x op= v: still (a view of) the same object
+        for k in [k for k, (r, _) in self.views.items() if k == name or r == name]:
+            del self.views[k]           # the name now denotes another object
         others = self.group(name) - {name}
         for m in others:
             self.alias[m] = others
@@ -307,7 +324,24 @@ class _State:
         self.stale |= set(self.group(name)) - {name}
 
     def fingerprint(self):
-        return tuple(sorted((k, ast.dump(v)) for k, v in self.env.items()))
+        return (tuple(sorted((k, ast.dump(v)) for k, v in self.env.items())),
+                tuple(sorted((k, r, ast.dump(i)) for k, (r, i) in self.views.items())))
+
+
+def _basic_view_index(sl):
+    """`x[sl]` is basic multi-dimensional slicing (a tuple of slices, integer
+    constants, None, ...; at least one slice): for an ndarray / np.matrix the
+    result is a VIEW of x, never a scalar and never a copy.  (A one-dimensional
+    `x[a:b]` is not accepted: x could be a list, whose slices are copies.)"""
+    if not isinstance(sl, ast.Tuple):
+        return False
+
+    def const(e):
+        if isinstance(e, ast.UnaryOp) and isinstance(e.op, ast.USub):
+            e = e.operand
+        return isinstance(e, ast.Constant) and (e.value is None or e.value is Ellipsis or
+                                                (isinstance(e.value, int) and not isinstance(e.value, bool)))
+    return all(isinstance(e, ast.Slice) or const(e) for e in sl.elts) and any(isinstance(e, ast.Slice) for e in sl.elts)
 
 
 def _view_root(e):
@@ -446,6 +480,23 @@ class SymExec:
         else:
             raise Unrecognised('assignment target %s' % u(target))
 
+    def _view_update(self, name, op, v, st, stmt):
+        """`name op= v` where `name = root[idx]` is an ndarray view (basic
+        multi-dimensional slicing) of the object `root` is still bound to:
+        the update happens in place, i.e. it is `root[idx] op= v`."""
+        root, idx = st.views[name]
+        tv = ast.Subscript(value=self.subst(ast.Name(id=root, ctx=ast.Load()), st), slice=copy.deepcopy(idx), ctx=ast.Load())
+        self.subst(ast.Name(id=name, ctx=ast.Load()), st)       # (raises if the view itself is out of date)
+        ast.copy_location(tv, stmt)
+        new = ast.copy_location(ast.BinOp(left=copy.deepcopy(tv), op=op, right=v), stmt)
+        st.mutated(root)
+        st.mutated(name)
+        st.env[root] = ast.copy_location(ast.Call(func=ast.Name(id='_store', ctx=ast.Load()), args=[tv, new], keywords=[]), stmt)
+        # the view sees the update
+        st.env[name] = ast.copy_location(ast.Subscript(value=copy.deepcopy(st.env[root]), slice=copy.deepcopy(idx), ctx=ast.Load()), stmt)
+        st.stale.discard(name)
+        st.stale.discard(root)
+
     def stmt(self, s, st):
         if isinstance(s, (ast.Pass, ast.Import, ast.ImportFrom, ast.Global, ast.Nonlocal, ast.Assert)):
             return [st]
@@ -483,7 +534,15 @@ class SymExec:
             for v, s2 in self.values(s.value, st):
                 s2 = s2.fork()
                 for t in targets:
+                    for nm in (target_names(t) if isinstance(t, (ast.Name, ast.Tuple, ast.List)) else ()):
+                        for k in [k for k, (r, _) in s2.views.items() if k == nm or r == nm]:
+                            del s2.views[k]      # rebound (also by `x = x[...]`, which may be a copy)
                     self._bind(t, v, s2, s, _view_root(s.value))
+                # v = x[:, 0]: remember that `v` is a view of the object `x` is bound to
+                if len(targets) == 1 and isinstance(targets[0], ast.Name) and isinstance(s.value, ast.Subscript) and \
+                        isinstance(s.value.value, ast.Name) and s.value.value.id != targets[0].id and \
+                        isinstance(v, ast.Subscript) and _basic_view_index(s.value.slice):
+                    s2.views[targets[0].id] = (s.value.value.id, v.slice)
                 out.append(s2)
             return out
         if isinstance(s, ast.AugAssign):
@@ -494,7 +553,9 @@ class SymExec:
                 for x in ast.walk(cur):
                     if hasattr(x, 'ctx'):
                         x.ctx = ast.Load()
-                if isinstance(s.target, ast.Name):
+                if isinstance(s.target, ast.Name) and s.target.id in s2.views:
+                    self._view_update(s.target.id, s.op, v, s2, s)
+                elif isinstance(s.target, ast.Name):
                     s2.mutated(s.target.id)          # in place for arrays
                     self._bind(s.target, ast.copy_location(ast.BinOp(left=cur, op=s.op, right=v), s), s2, s, s.target.id)
                 else:
@@ -506,6 +567,8 @@ class SymExec:
             for t in s.targets:
                 if isinstance(t, ast.Name):
                     st.env.pop(t.id, None)
+                    for k in [k for k, (r, _) in st.views.items() if k == t.id or r == t.id]:
+                        del st.views[k]
                 else:
                     raise Unrecognised('del %s' % u(t))
             return [st]
@@ -530,7 +593,7 @@ class SymExec:
             # both branches leave the same state behind (logging only): no fork
             if len(branches) == 2 and len(outs) == 2 and len(self.paths) == n_before and \
                     all(len(b) == 1 for b in branches) and outs[0].fingerprint() == outs[1].fingerprint():
-                return [_State(outs[0].env, dict(st.conds), outs[0].alias, outs[0].stale)]
+                return [_State(outs[0].env, dict(st.conds), outs[0].alias, outs[0].stale, outs[0].views)]
             return outs
         if isinstance(s, ast.Try):
             if s.finalbody:
